@@ -38,9 +38,9 @@ func c05(r *ev.Reporter, _ []string) {
 			)
 		} else {
 			runs = append(runs,
-				run{cluster.Config{N: 4, Rules: rs, Horizon: 5, Timeouts: 8, Drops: true, Dups: 1, Cache: 100}, 2, 20000, 20 * time.Minute},
-				run{cluster.Config{N: 4, Rules: rs, Horizon: 5, Timeouts: 8, Drops: true, Twin: 3, Cache: 100}, 1, 8000, 10 * time.Minute},
-				run{cluster.Config{N: 7, Rules: rs, Horizon: 3, Timeouts: 4, Drops: true, Cache: 100}, 1, 3000, 10 * time.Minute},
+				run{cluster.Config{N: 4, Rules: rs, Horizon: 5, Timeouts: 8, Drops: true, Dups: 1, Cache: 100}, 2, 20000, 8 * time.Minute},
+				run{cluster.Config{N: 4, Rules: rs, Horizon: 5, Timeouts: 8, Drops: true, Twin: 3, Cache: 100}, 1, 8000, 4 * time.Minute},
+				run{cluster.Config{N: 7, Rules: rs, Horizon: 3, Timeouts: 4, Drops: true, Cache: 100}, 1, 3000, 4 * time.Minute},
 			)
 		}
 	}
